@@ -153,12 +153,58 @@ def fragment_function(c):
     return run
 
 
+def nested_function(c):
+    """a nested function (`outer.<locals>.inner`), extracted mechanically from the real source at run time and compiled
+    in the globals of its module.  Only for nested functions that do not read variables of the enclosing function
+    (checked: every free name must resolve in the module or the builtins)."""
+    import ast
+    import builtins as _b
+    import copy as _copy
+    repo = os.environ.get("VERIF_REPO_ROOT") or os.getcwd()
+    path = os.path.join(repo, c.file)
+    if not os.path.exists(path):
+        for pth in sys.path:
+            if os.path.exists(os.path.join(pth, c.file)):
+                path = os.path.join(pth, c.file)
+                break
+    node = ast.parse(open(path).read())
+    for part in c.qualname.split("."):
+        if part == "<locals>":
+            continue
+        found = None
+        for n in ast.walk(node):
+            if n is not node and isinstance(n, (ast.FunctionDef, ast.ClassDef)) and n.name == part:
+                found = n
+                break
+        if found is None:
+            raise RuntimeError(f"{part} not found in {c.file}")
+        node = found
+    fdef = _copy.deepcopy(node)
+    fdef.decorator_list = []
+    mod = ast.Module(body=[fdef], type_ignores=[])
+    ast.fix_missing_locations(mod)
+    code = compile(mod, f"<nested {c.target}>", "exec")
+    modname = c.file[:-3].replace("/", ".")
+    glob = dict(importlib.import_module(modname).__dict__)
+    exec(code, glob)
+    fn = glob[fdef.name]
+    free = [n for n in fn.__code__.co_names if n not in glob and not hasattr(_b, n)]
+    assigned = set(fn.__code__.co_varnames)
+    free = [n for n in free if n not in assigned and not any(
+        isinstance(a, ast.Attribute) and a.attr == n for a in ast.walk(fdef))]
+    if free:
+        raise RuntimeError(f"nested function {c.qualname} reads enclosing-scope names {free}: not extractable")
+    return fn
+
+
 def real_function(c):
     hook = getattr(c.cls, "real", None)
     if hook is not None:
         return hook()
     if getattr(c.cls, "fragment", None):
         return fragment_function(c)
+    if "<locals>" in c.qualname:
+        return nested_function(c)
     modname = c.file[:-3].replace("/", ".")
     mod = importlib.import_module(modname)
     obj = mod
